@@ -8,6 +8,7 @@ import GoImap.Props.C08
 #print axioms GoImap.C08.no_expunge_in
 #print axioms GoImap.C08.shrink_only_by_expunge
 #print axioms GoImap.C08.noop_sync
+#print axioms GoImap.C08.check_point_sync
 #print axioms GoImap.C08.each_removed_once
 #print axioms GoImap.C08.legacy_move_counterexample
 #print axioms GoImap.C08.legacy_fetch_counterexample
